@@ -27,6 +27,10 @@ TABLE = {
    text='generated histories of connects, save_session/get_session/session() blocks, namespace disconnects, server disconnects, transport losses and re-connects on the same or new transports against real Server/AsyncServer; every read is compared with a dict model keyed by (sid, namespace); stored values carry unique origin markers so a leak names its source',
    note='dictionaries returned by get_session() are not mutated by the harness; one known finding (session-survives-namespace-reconnect) is matched only when the leaked data comes from an earlier epoch of the same (transport, namespace)',
    tech='runtime monitoring: history + executable session model with origin markers'),
+ 'C04': dict(cat='exploration',
+   text='(a) generated sequential histories of CONNECT/DISCONNECT/disconnect()/transport loss/CLOSE against real Server/AsyncServer, crossed with always_connect, namespaces option, function vs class-based handlers and connect handlers that accept / return False / raise ConnectionRefusedError with 0-4 arguments; a lifecycle model per (transport, namespace) decides handler counts, answers, reasons, sid freshness and membership, with broadcast probes after every termination; (b) for the asyncio server, enumerated interleavings of concurrent terminating causes at every await point of handlers and sends',
+   note='threaded server explored sequentially here (its thread races are C20); empty and absent auth are not distinguished',
+   tech='runtime monitoring: history + lifecycle reference model; controlled await-point scheduler for asyncio interleavings'),
 }
 # filled in as checks are built; see bottom of file for the not-built reason
 
